@@ -11,7 +11,7 @@ round trip and the commit; `code_holds_lock` is re-checked against it.
 Tie half (trace validation): the real route function `routers.process_unit.save_method` -> `FromFrontend.save_method`
 and the real `AggregatorMessageHandlers` (registration, disconnect) run on an asyncio loop the harness steps by hand,
 against a dispatcher whose `rpc_call` suspends until the schedule answers it.  Which variant the code is, is
-*measured* by two probes on the real handlers (so a refactoring the AST translator does not understand cannot make the
+*measured* by three probes on the real handlers (so a refactoring the AST translator does not understand cannot make the
 model diverge from correct code).  Every interleaving of 2 and 3 concurrent saves (all base versions around the
 current one, ok / error answers), and of 2 saves with an engine disconnect + re-registration at every point, is
 enumerated; after every event the observable state (registered, method version, whose content is stored, pending round
@@ -33,7 +33,7 @@ META = dict(
                "number of save requests, engine answers, disconnects and re-registrations, accepted saves have pairwise "
                "distinct base versions, each was based on the version current when it was accepted and raises the "
                "version by exactly one, and the version never falls; without the lock, or with the version reset to 0 "
-               "on re-registration, the statement is refuted by a decided schedule. Which system the code is: two "
+               "on re-registration, the statement is refuted by a decided schedule. Which system the code is: three "
                "behavioural probes + AST translator (lock around a check, the rpc and the commit) + trace validation of "
                "the real handlers under all interleavings of 2-3 saves (and 2 saves with a reconnect) on a hand-stepped "
                "asyncio loop.",
@@ -230,14 +230,17 @@ class SaveHarness:
                 f"acc={sl(acc)} eng={nl([c[1] for c in self.calls])} res={sl([f'{i}:{o}' for (i, o) in self.results])}")
 
 
-def probe() -> tuple[bool, bool]:
+def probe() -> tuple[bool, bool, bool]:
     """Measure which system the code is: (a second save entering during the first one's round trip is held back,
-    the method version after a disconnect + re-registration is 0 again)."""
+    the method version after a disconnect + re-registration is 0 again, a save on a stale version entering during a
+    round trip is refused at once instead of waiting for the lock)."""
     h = SaveHarness(3)
     try:
         h.start(0, 3)
         h.start(1, 3)
         locked = 1 not in h.pending() and not any(i == 1 for (i, _) in h.results)
+        h.start(2, 2)
+        precheck = locked and any(i == 2 for (i, _) in h.results)
     finally:
         h.close()
     h = SaveHarness(3)
@@ -249,7 +252,7 @@ def probe() -> tuple[bool, bool]:
         reset = h.version() == 0
     finally:
         h.close()
-    return locked, reset
+    return locked, reset, precheck
 
 
 def run_case(case: dict) -> tuple[list[str], list[dict]]:
@@ -271,8 +274,8 @@ def run_case(case: dict) -> tuple[list[str], list[dict]]:
         h.close()
 
 
-def case_lines(case: dict, cfg: tuple[bool, bool], mutant: bool = False) -> list[str]:
-    ls = [f"{'initm' if mutant else 'init'}\t{case['v0']}\t{int(cfg[0])}\t{int(cfg[1])}"]
+def case_lines(case: dict, cfg: tuple[bool, bool, bool], mutant: bool = False) -> list[str]:
+    ls = [f"{'initm' if mutant else 'init'}\t{case['v0']}\t{int(cfg[0])}\t{int(cfg[1])}\t{int(cfg[2])}"]
     for ev in case["events"]:
         if ev[0] == "start":
             ls.append(f"start\t{ev[1]}\t{ev[2]}")
@@ -434,7 +437,8 @@ def run(ctx: Check) -> int:
     ctx.extra["lock_table"] = table
     cfg = probe()
     ctx.extra["measured_system"] = {"second_save_waits_for_the_first_round_trip": cfg[0],
-                                    "version_reset_to_0_on_reregistration": cfg[1]}
+                                    "version_reset_to_0_on_reregistration": cfg[1],
+                                    "stale_save_refused_in_front_of_the_lock": cfg[2]}
     rng = ctx.rng
 
     cases: list[dict] = [WITNESS, RECONNECT_WITNESS] + [c for c in load_corpus("C31") if "events" in c]
